@@ -1,3 +1,5 @@
+pub mod dynafed;
 pub mod merkle;
 pub mod model;
+pub mod parse;
 pub mod sha256;
